@@ -1,0 +1,22 @@
+//go:build verif
+// +build verif
+
+package lime
+
+import "net"
+
+// NewTCPTransportFromConn builds the real TCP transport over a caller-supplied
+// connection, in the client or the server role (the role decides tls.Client vs
+// tls.Server on upgrade), exactly as DialTcp / tcpTransportListener.Accept do.
+// It exists only in verification builds: Transport mentions the unexported
+// envelope type, so no other package can supply a transport of its own.
+func NewTCPTransportFromConn(conn net.Conn, config *TCPConfig, server bool) Transport {
+	if config == nil {
+		config = &defaultTCPConfig
+	}
+	t := tcpTransport{TCPConfig: *config}
+	t.server = server
+	t.setConn(conn)
+	t.encryption = SessionEncryptionNone
+	return &t
+}
